@@ -312,7 +312,7 @@ var c09QueryNames = []string{"q", "q", "", "_serf_ping", "_serf_conflict", "_ser
 
 // ---- announced-but-absent bytes ------------------------------------------------
 //
-// Gate class AMP (confirmed defect, see replays/C09/amp-*.json): a message
+// Gate class AMP (found by this check, fixed in /repo as D18; see replays/C09/amp-*.json): a message
 // that carries one extra element - an ext32 of the msgpack timestamp type
 // whose header announces far more bytes than the message has. A decoder that
 // reads from a stream allocates the announced size before it notices that the
